@@ -96,7 +96,7 @@ func genOne(c *hx.Ctx, class string) string {
 
 func gen(c *hx.Ctx) {
 	classes := []string{"slow", "slow", "fast", "close-mid", "close-mid", "close-tie", "close-tie", "cstop", "close-early"}
-	N := c.Budget(20000, 100000)
+	N := c.Budget(20000, 300000)
 	for i := 0; i < N; i++ {
 		cl := classes[i%len(classes)]
 		c.Emit("%s", genOne(c, cl))
